@@ -175,11 +175,15 @@ fn check_timing(c: &Timing, st: &mut Stats) -> Result<(), Fail> {
     let (fen, moves, remaining, inc, mtg, overhead) = match c {
         Timing::Tape(data) => {
             let mut t = Tape::new(data);
-            let Some((fen, moves, _, _)) = gen_game(&mut t, 0, 10) else {
+            // a quarter of the cases use capture-storm positions, whose first iteration alone can
+            // outlast a small clock
+            let storm = t.pick(5) < 2;
+            let game = if storm { super::searchlib::storm_theme_sized(&mut t, true).map(|p| (p.to_fen(), vec![])) } else { gen_game(&mut t, 0, 10).map(|(f, m, _, _)| (f, m)) };
+            let Some((fen, moves)) = game else {
                 st.discard();
                 return Ok(());
             };
-            let remaining = [200u32, 250, 300, 400, 600, 1000, 1500, 2000][t.pick(8)];
+            let remaining = if storm { [200u32, 200, 250, 300][t.pick(4)] } else { [200u32, 250, 300, 400, 600, 1000, 1500, 2000][t.pick(8)] };
             let inc = [0u32, 0, 10, 50, 100, 1000][t.pick(6)];
             let mtg = match t.pick(5) {
                 0 => Some(1),
@@ -282,10 +286,12 @@ pub fn run(run: &mut Run) -> &'static str {
     run.proptest_part("go_parser", RULE, strat, cases, check_go_line);
     // ---- wall clock on the shipped binary
     if engine_available() {
-        let cases = tier.pick(64, 1_500);
+        let cases = tier.pick(96, 1_500);
         let old = run.workers;
         run.workers = 4;
         run.watchdog_secs = Some(600);
+        run.max_shrink_ms = 30_000;
+        run.max_shrink_iters = 12;
         run.proptest_part("wall_clock", RULE, tape(12..80).prop_map(Timing::Tape), cases, check_timing);
         run.workers = old;
     } else {
